@@ -1,7 +1,7 @@
 (* C09 -- the bytes produced by encode_mcu_huff do not depend on the destination
    buffer size nor on the refusal schedule of empty_output_buffer. *)
 From Coq Require Import List ZArith Lia Arith Bool.
-From LJT Require Import model.Suspend model.SuspendEnc.
+From LJT Require Import model.SuspendCore model.SuspendEnc.
 Import ListNotations.
 
 Definition wf (d : dest) : Prop := length (wbuf d) < cap d.
